@@ -21,7 +21,7 @@ from . import c06 as _c06
 LEVEL = 'exploration'
 TRUSTED = TRUSTED_COMMON + ['contracts of rank_chop, SVD, QR (shapes only)']
 ASSUMPTIONS = ['accuracy clause: bounded run-time contracts only: orders 1..3 (quick) / 1..6 (thorough), sizes {1,2,3,5}, ranks {1,2,3}, eps {1e-2,1e-6,1e-10}, with / without initial guess, real and complex (DMRG), constant C = 50',
-               'deductive part: DMRG routines for orders 1, 2 (nswp <= 2) and 3 (nswp = 1); sizes, ranks, kickrank symbolic; AMEn products (amen_mv / amen_mm): no-raise / shape / frame for orders 1, 2 (one sweep), the interface recursions and local product against the dense form (orders 1..3), and the call-site contract amen.entry (order 2: the sweep routine and its first local product work on the operands' own cores); the sweep itself (rank adaption, convergence) only through the bounded stand-in']
+               'deductive part: DMRG routines for orders 1, 2 (nswp <= 2) and 3 (nswp = 1); sizes, ranks, kickrank symbolic; AMEn products (amen_mv / amen_mm): no-raise / shape / frame for orders 1, 2 (one sweep), the interface recursions and local product against the dense form (orders 1..3), and the call-site contract amen.entry (order 2: the sweep routine and its first local product work on the cores of the operands themselves); the sweep itself (rank adaption, convergence) only through the bounded stand-in']
 EXPLANATION = 'bounded run-time contracts for the accuracy; symbolic no-raise / shape / frame obligations for the DMRG routines'
 
 
